@@ -75,3 +75,14 @@ Definition Epoch_eq (a b : epoch_val) : bool :=
     list_eqb (fun x y => String.eqb (fst x) (fst y) && Qeq_bool (snd x) (snd y)) (ev_sizes a) (ev_sizes b) &&
     list_eqb (fun x y => String.eqb (fst (fst x)) (fst (fst y)) && String.eqb (snd (fst x)) (snd (fst y)) && Qeq_bool (snd x) (snd y))
              (ev_mig a) (ev_mig b).
+
+(* AbstractCoalescent.__init__, completion of populations (compared with the expected text): populations of the sample that the
+   demography does not know get size 1 from time 0; populations of the demography that the sample does not name are appended to the
+   sample configuration with 0 lineages - in the iteration order of a Python set, which is the parameter `set_order` (any
+   rearrangement of the missing names) *)
+Definition Coalescent_initial_sizes (sample_names demography_names : list string) : list (string * Q) :=
+    map (fun p => (p, 1%Q)) (filter (fun p => negb (existsb (String.eqb p) demography_names)) sample_names).
+Definition Coalescent_unspecified (sample_names demography_names : list string) : list string :=
+    filter (fun p => negb (existsb (String.eqb p) sample_names)) demography_names.
+Definition Coalescent_completed_lineages (lineage_dict : list (string * Z)) (set_order : list string) : list (string * Z) :=
+    lineage_dict ++ map (fun p => (p, 0%Z)) set_order.
